@@ -403,11 +403,19 @@ type RLoop struct {
 	Elem   ssa.Value  // the loaded element (UnOp of the IndexAddr), may be nil when only the index is used
 	ElemAl *ssa.Alloc // the local the element is copied into, if any
 	Blocks map[*ssa.BasicBlock]bool
+	Index  ssa.Value          // index loops (for i := 0; i < len(x); i++): the index phi
+	Elems  map[ssa.Value]bool // index loops: every load of x[i] in the loop (the element may be read more than once)
 }
 
 func rangeLoops(fn *ssa.Function) []*RLoop {
 	var out []*RLoop
 	for _, h := range fn.Blocks {
+		if h.Comment == "for.loop" && len(h.Succs) == 2 {
+			if l := indexLoop(h); l != nil {
+				out = append(out, l)
+			}
+			continue
+		}
 		if h.Comment != "rangeindex.loop" || len(h.Succs) != 2 {
 			continue
 		}
@@ -489,9 +497,93 @@ func appendedElems(c *ssa.CallCommon) []ssa.Value {
 	return out
 }
 
+// indexLoop recognises the full scan written with an index: for i := 0; i < len(x); i++ { ... x[i] ... } —
+// the index starts at 0, is increased by one in the post block and nowhere else, and the loop is left
+// when it reaches len(x). Equivalent to `for _, e := range x` as long as the body does not reassign x,
+// which the rules that use loops over the row buffer check separately (stores to the buffer field).
+func indexLoop(h *ssa.BasicBlock) *RLoop {
+	iff, ok := h.Instrs[len(h.Instrs)-1].(*ssa.If)
+	if !ok {
+		return nil
+	}
+	bo, ok := iff.Cond.(*ssa.BinOp)
+	if !ok || bo.Op != token.LSS {
+		return nil
+	}
+	phi, ok := bo.X.(*ssa.Phi)
+	if !ok || phi.Block() != h || len(phi.Edges) != 2 {
+		return nil
+	}
+	lc, ok := bo.Y.(*ssa.Call)
+	if !ok {
+		return nil
+	}
+	cc, ok := isBuiltinCall(lc, "len")
+	if !ok {
+		return nil
+	}
+	// i starts at 0 and is i+1 on the back edge
+	zero, inc := false, false
+	for _, e := range phi.Edges {
+		if isZeroConst(e) {
+			zero = true
+		}
+		if b2, ok := e.(*ssa.BinOp); ok && b2.Op == token.ADD && b2.X == ssa.Value(phi) {
+			if k, ok := b2.Y.(*ssa.Const); ok && k.Value != nil && k.Int64() == 1 {
+				inc = true
+			}
+		}
+	}
+	if !zero || !inc {
+		return nil
+	}
+	l := &RLoop{Header: h, Body: h.Succs[0], Blocks: map[*ssa.BasicBlock]bool{}, X: cc.Args[0], Index: phi, Elems: map[ssa.Value]bool{}}
+	st := []*ssa.BasicBlock{l.Body}
+	for len(st) > 0 {
+		x := st[len(st)-1]
+		st = st[:len(st)-1]
+		if x == h || l.Blocks[x] {
+			continue
+		}
+		l.Blocks[x] = true
+		st = append(st, x.Succs...)
+	}
+	xt := TermOf(l.X, nil).String()
+	for b := range l.Blocks {
+		for _, in := range b.Instrs {
+			ia, ok := in.(*ssa.IndexAddr)
+			if !ok || ia.Index != ssa.Value(phi) || TermOf(ia.X, nil).String() != xt {
+				continue
+			}
+			for _, r := range *ia.Referrers() {
+				switch y := r.(type) {
+				case *ssa.UnOp:
+					if y.Op == token.MUL {
+						l.Elems[y] = true
+						if l.Elem == nil {
+							l.Elem = y
+						}
+						for _, rr := range *y.Referrers() {
+							if s, ok := rr.(*ssa.Store); ok && s.Val == ssa.Value(y) {
+								if al, ok := s.Addr.(*ssa.Alloc); ok && l.ElemAl == nil {
+									l.ElemAl = al
+								}
+							}
+						}
+					}
+				}
+			}
+		}
+	}
+	return l
+}
+
 // elemOfLoop reports whether v is (a load of) the loop's element.
 func (l *RLoop) isElem(v ssa.Value) bool {
 	if v == l.Elem && v != nil {
+		return true
+	}
+	if l.Elems[v] {
 		return true
 	}
 	if ld, ok := v.(*ssa.UnOp); ok && ld.Op == token.MUL {
@@ -650,27 +742,54 @@ func phiLeaves(v ssa.Value) []ssa.Value {
 	return out
 }
 
+// reachBindings: while a boolean helper is being evaluated inside reachUnder, its parameters stand
+// for the arguments of the call being evaluated. Assumption functions that compare operands by identity
+// with a value of the outer function pass them through resolveBound first.
+var reachBindings []map[*ssa.Parameter]ssa.Value
+
+func resolveBound(v ssa.Value) ssa.Value {
+	for i := len(reachBindings) - 1; i >= 0; i-- {
+		p, ok := v.(*ssa.Parameter)
+		if !ok {
+			return v
+		}
+		if x, ok := reachBindings[i][p]; ok {
+			v = x
+		}
+	}
+	return v
+}
+
 // reachUnder: is target reachable from fn's entry when every If whose condition is decided by
-// assume (through negation, and through phis that merge decided values over feasible edges — the
-// form `c := x == nil || y == nil; if c {` takes) only follows the decided edge? Optimistic fixpoint
-// over feasible edges (as in conditional constant propagation): no path enumeration.
+// assume (through negation, through phis that merge decided values over feasible edges — the form
+// `c := x == nil || y == nil; if c {` takes — and through calls of same-module boolean helpers, which
+// are evaluated under the same assumptions with their parameters bound to the arguments) only follows
+// the decided edge? Optimistic fixpoint over feasible edges (as in conditional constant propagation):
+// no path enumeration.
 func reachUnder(fn *ssa.Function, target ssa.Instruction, assume func(v ssa.Value) Tri) bool {
+	reach, _ := feasibleUnder(fn, assume, 0)
+	return reach[target.Block()]
+}
+
+// feasibleUnder computes the blocks of fn reachable under assume and the value of fn's first result
+// (when it is a boolean) over the reachable returns.
+func feasibleUnder(fn *ssa.Function, assume func(v ssa.Value) Tri, depth int) (map[*ssa.BasicBlock]bool, Tri) {
 	type edge struct{ from, to *ssa.BasicBlock }
 	feasible := map[edge]bool{}
 	reach := map[*ssa.BasicBlock]bool{fn.Blocks[0]: true}
-	var eval func(v ssa.Value, depth int) Tri
-	eval = func(v ssa.Value, depth int) Tri {
+	var eval func(v ssa.Value, d int) Tri
+	eval = func(v ssa.Value, d int) Tri {
 		switch x := v.(type) {
 		case *ssa.UnOp:
 			if x.Op == token.NOT {
-				return eval(x.X, depth).not()
+				return eval(x.X, d).not()
 			}
 		case *ssa.Const:
 			if x.Value != nil && x.Value.Kind() == constant.Bool {
 				return tri(constant.BoolVal(x.Value))
 			}
 		case *ssa.Phi:
-			if r := assume(v); r != U || depth > 3 {
+			if r := assume(v); r != U || d > 3 {
 				return r
 			}
 			res, first := U, true
@@ -678,7 +797,7 @@ func reachUnder(fn *ssa.Function, target ssa.Instruction, assume func(v ssa.Valu
 				if !feasible[edge{x.Block().Preds[i], x.Block()}] {
 					continue
 				}
-				r := eval(e, depth+1)
+				r := eval(e, d+1)
 				if first {
 					res, first = r, false
 				} else if r != res {
@@ -686,6 +805,27 @@ func reachUnder(fn *ssa.Function, target ssa.Instruction, assume func(v ssa.Valu
 				}
 			}
 			return res
+		case *ssa.Call:
+			if r := assume(v); r != U {
+				return r
+			}
+			callee := x.Call.StaticCallee()
+			if callee == nil || callee.Blocks == nil || depth >= 2 || callee.Pkg != fn.Pkg || callee == fn {
+				return U
+			}
+			if res := callee.Signature.Results(); res.Len() != 1 || !isBool(res.At(0).Type()) {
+				return U
+			}
+			bind := map[*ssa.Parameter]ssa.Value{}
+			for i, p := range callee.Params {
+				if i < len(x.Call.Args) {
+					bind[p] = resolveBound(x.Call.Args[i])
+				}
+			}
+			reachBindings = append(reachBindings, bind)
+			_, r := feasibleUnder(callee, assume, depth+1)
+			reachBindings = reachBindings[:len(reachBindings)-1]
+			return r
 		}
 		return assume(v)
 	}
@@ -716,7 +856,24 @@ func reachUnder(fn *ssa.Function, target ssa.Instruction, assume func(v ssa.Valu
 			}
 		}
 	}
-	return reach[target.Block()]
+	// the boolean result over the reachable returns
+	result, first := U, true
+	for _, b := range fn.Blocks {
+		if !reach[b] {
+			continue
+		}
+		ret, ok := b.Instrs[len(b.Instrs)-1].(*ssa.Return)
+		if !ok || len(ret.Results) == 0 || !isBool(ret.Results[0].Type()) {
+			continue
+		}
+		r := eval(ret.Results[0], 0)
+		if first {
+			result, first = r, false
+		} else if r != result {
+			result = U
+		}
+	}
+	return reach, result
 }
 
 // returnsNilError: every return of fn yields a nil constant as result idx, directly or by
